@@ -1,3 +1,4 @@
+pub mod cli15;
 pub mod early;
 pub mod refine;
 pub mod regret;
